@@ -317,6 +317,7 @@ class Text(JupyterMixin):
     @plain.setter
     def plain(self, new_text: str) -> None:
         """Set the text to a new value."""
+        new_text = strip_control_codes(new_text)
         if new_text != self.plain:
             self._text[:] = [new_text]
             old_length = self._length
